@@ -42,6 +42,7 @@ def build():
     u.raw("}\n")
     u.real_item(common.GEN, r"struct InsertReferencesResult\b", lambda t: common.wrap(common.pub_fields(common.strip_doc(t))), "R7")
     u.include("spec/ids.rs")
+    u.include("spec/report.rs")
     u.include("spec/tree.rs")
     u.include("shims/walk.rs")
     u.raw("verus! {\nimpl CodeFile {\n")
